@@ -8,7 +8,8 @@
                     "back": hex of bytesOfJsonText lit | null,
                     "field": bits of Spec.fieldCode (.chars k) of the value read back | null,
                     "field_direct": bits of Spec.fieldCode (.chars k) of the octets themselves,
-                    "utf8": text the refuted "UTF-8 when valid" serialiser would write}, ..],
+                    "utf8": text the refuted "UTF-8 when valid" serialiser would write,
+                    "repr": reprBytes (the value token of the text formats), "repr_back": hex of evalBytesLiteral of it | null}, ..],
           "strings":[{"lit": jsonStringLiteral s, "back": [code points] | null}, ..],
           "lits":[[code points] | null, ..]}                   -- parseStringLiteral
 -/
@@ -33,7 +34,9 @@ def opJsonText (j : Json) : J Json := do
                 ("back", match back with | some x => jstr (bytesToHex x) | none => Json.null),
                 ("field", optBits (back.bind fun x => Spec.fieldCode (.chars k) (.bytes x))),
                 ("field_direct", optBits (Spec.fieldCode (.chars k) (.bytes b))),
-                ("utf8", jstr (String.ofList (jsonStringLiteral (utf8WhenValid b))))])
+                ("utf8", jstr (String.ofList (jsonStringLiteral (utf8WhenValid b)))),
+                ("repr", jstr (String.ofList (reprBytes b))),
+                ("repr_back", match evalBytesLiteral (reprBytes b) with | some x => jstr (bytesToHex x) | none => Json.null)])
   let strings ← (← asList (fldD j "strings" (jarr []))).mapM fun s => do
     let cps ← (← asList s).mapM asNat
     let str := cps.map Char.ofNat
